@@ -18,6 +18,7 @@ import (
 	"strconv"
 	"strings"
 	"sync"
+	"sync/atomic"
 	"testing"
 	"time"
 
@@ -30,9 +31,44 @@ var out *bufio.Writer
 // emit writes one line and flushes it: the code under test may bring the process down from a
 // goroutine of its own, and what was observed before that must be on file.
 func emit(format string, args ...any) {
+	emitMu.Lock()
 	fmt.Fprintf(out, format, args...)
 	out.WriteByte('\n')
 	out.Flush()
+	emitMu.Unlock()
+	lastAlive.Store(time.Now().UnixNano())
+}
+
+var (
+	emitMu    sync.Mutex
+	lastAlive atomic.Int64
+	stuckNote atomic.Value
+)
+
+// note records what is about to be asked of the code under test; it counts as progress.
+func note(format string, args ...any) {
+	stuckNote.Store(fmt.Sprintf(format, args...))
+	lastAlive.Store(time.Now().UnixNano())
+}
+
+// watchdog: every family writes a line at least every few seconds of real time (virtual time
+// costs none).  Eight minutes without one means a call into the code under test has not
+// returned and never will - a lock never released, a waiter never woken.  That is an
+// observation: a last line `stuckst` naming the family and what was under way, and the run ends.
+func watchdog(fam string) {
+	lastAlive.Store(time.Now().UnixNano())
+	go func() {
+		for {
+			time.Sleep(15 * time.Second)
+			if time.Since(time.Unix(0, lastAlive.Load())) > 8*time.Minute {
+				n, _ := stuckNote.Load().(string)
+				emitMu.Lock()
+				fmt.Fprintf(out, "stuckst\tfamily=%s\tnote=%s\n", fam, hx(n))
+				out.Flush()
+				os.Exit(0)
+			}
+		}
+	}()
 }
 
 func hx(s string) string { return hex.EncodeToString([]byte(s)) }
@@ -102,6 +138,7 @@ func TestTrace(t *testing.T) {
 	}
 	out = bufio.NewWriterSize(f, 1<<20)
 	defer out.Flush()
+	watchdog(o.family)
 	switch o.family {
 	case "store":
 		traceStore(t, o)
